@@ -82,6 +82,7 @@ def gen_obligations(res, contracts, canary=True):
             res.unattached.append(c)
         except Unsupported as e:
             res.errors.append(("unsupported", f"{c.name}: {e}"))
+            res.unattached.append(c)        # the runtime form of the contract (if any) is searched instead
         except Exception as e:   # noqa
             res.errors.append(("crash", f"{c.name}: {e!r}\n{traceback.format_exc()[-1500:]}"))
 
@@ -219,6 +220,7 @@ def run_property(pid, tier="quick", seed=0, relock=False, only=None, verbose=Tru
         r = run_native("runtime_check.py", {"module": rt["module"], "name": rt["name"], "seed": seed, "count": 30000,
                                             "time_s": 60}, timeout=600)
         js = r["json"] or {}
+        js["failures"] = [f for f in js.get("failures", []) if not all(":KNOWN:" in x for x in f.get("failed", ["x"]))]
         entry = {"name": f"runtime contract of {c.name} (contract could not be attached)", "bounded": True,
                  "cases": js.get("cases", 0), "distinct_nontrivial": js.get("distinct_nontrivial", 0),
                  "bounds": js.get("bounds", ""), "failures": js.get("failures", [])}
